@@ -19,8 +19,8 @@ class Runaway(BaseException):
     """The code under test makes oracle calls without end (or spins) - it is cut and reported as such."""
 
 
-MAX_LOG = 3000          # oracle calls per execution; programs of the families need < 200
-SPIN_CPU_S = 10.0       # CPU-seconds for one execution that makes no oracle call at all
+MAX_LOG = 1500          # oracle calls per execution; programs of the families need < 200
+SPIN_CPU_S = 1.0        # CPU-seconds for one execution that makes no oracle call at all
 
 
 class Tok:
@@ -161,6 +161,9 @@ class Env:
         return {"t": self.t, "v": self.v, "c": self.c, "g": self.g, "it": self.it, "it2": self.it2, "w": self.w}
 
 
+_RUNAWAYS = [0]          # per process: after many runaway executions the spin budget shrinks (a broken tree must not take hours)
+
+
 def _spin_handler(signum, frame):
     raise Runaway()
 
@@ -174,13 +177,14 @@ def execute(fn: Callable[[], Any], env: Env, ch: Chooser) -> Tuple[tuple, tuple]
     """Run fn under chooser; returns (log, outcome)."""
     env.reset(ch)
     old = signal.signal(signal.SIGVTALRM, _spin_handler)
-    signal.setitimer(signal.ITIMER_VIRTUAL, SPIN_CPU_S)
+    signal.setitimer(signal.ITIMER_VIRTUAL, SPIN_CPU_S if _RUNAWAYS[0] < 20 else SPIN_CPU_S / 5)
     try:
         r = fn()
         out = ("ret", r)
     except Horizon:
         out = ("cut",)
     except Runaway:
+        _RUNAWAYS[0] += 1
         out = ("exc", "Runaway(non-terminating)")
     except RecursionError:
         out = ("exc", "RecursionError")
